@@ -223,6 +223,14 @@ def run_case(entries, argform, flags, reverse, scratch, runner='inprocess'):
             args = [tree, tree]
         elif argform == 'file+dir':
             args = targets[:1] + [tree]
+        elif argform == 'through-linkdir':
+            # `<symlinked directory>/../target.py` names a file next to the link's TARGET (outside/target.py), not the tree's own files - and a
+            # shrink.py style sibling with the same name inside the tree must not be touched instead
+            links = [os.path.join(tree, n) for n in names if os.path.islink(os.path.join(tree, n)) and os.path.isdir(os.path.join(tree, n)) and 'loop' not in n]
+            args = [os.path.join(l, '..', 'target.py') for l in links]
+            if args:
+                with open(os.path.join(tree, 'target.py'), 'wb') as f:
+                    f.write(SHRINK)
         elif argform == 'missing-first':
             args = [os.path.join(tree, 'no_such_module.py')] + targets
         elif argform == 'missing-last':
@@ -289,7 +297,7 @@ def run_case(entries, argform, flags, reverse, scratch, runner='inprocess'):
         shutil.rmtree(root, ignore_errors=True)
 
 
-ARGFORMS = ['dir', 'files', 'file-twice', 'dir-twice', 'file+dir', 'missing-first', 'missing-last']
+ARGFORMS = ['dir', 'files', 'file-twice', 'dir-twice', 'file+dir', 'missing-first', 'missing-last', 'through-linkdir']
 FLAGSETS = [[], ['--no-remove-explicit-return-none', '--no-rename-locals', '--no-hoist-literals']]
 
 
